@@ -31,6 +31,7 @@ type TreeCfg struct {
 	Key        KeyType `json:"key"`
 	Val        string  `json:"val"`
 	SpareCodec bool    `json:"spare_codec,omitempty"`
+	Codec      string  `json:"codec,omitempty"` // compound: "" = the library's fixed-width encoders concatenated; "own" = the harness's own order-preserving encodings with an escaped string
 	Shared     bool    `json:"shared,omitempty"` // C16: built once, then only read, by several goroutines
 }
 
